@@ -67,7 +67,7 @@ def main(argv):
         print(json.dumps({"case": plain(ev["case"]), "valid": ev["valid"], "impl_equals_model": ev["same"],
                           "P(model)": ev["pm"], "P(impl)": ev["pi"],
                           "explain": plug.explain(ev["case"], ev["obs"], ev["model"]) if hasattr(plug, "explain") and not ev["same"] else None},
-                         indent=1, ensure_ascii=False, default=str)[:6000])
+                         indent=1, ensure_ascii=True, default=str)[:6000])
         if ev["pi"] != 1:
             print(f"VIOLATION property={pid} replay={argv[1]}")
             return 1
